@@ -78,6 +78,8 @@ var c07Bodies = [][2]string{
 	{`{{ try }}{{ y := 1 }}<{{ . }}>{{ end }}`, "D"},
 	{`{{ try }}{{ fail() }}{{ catch y }}<{{ . }}>{{ end }}`, "D"},
 	{`{{ includeIfExists("/inc.jet", "ctx") }}`, "ctx"},
+	{`{{ yield rangeWrap() content }}{{ y := 1 }}{{ end }}<{{ . }}>`, "D"},
+	{`{{ yield ctxWrap() "bctx" content }}{{ y := 1 }}{{ end }}<{{ . }}>`, "D"},
 	{`{{ try }}{{ range one }}{{ y := 1 }}{{ fail() }}{{ end }}{{ catch }}<{{ . }}>{{ end }}`, "D"},
 	{`{{ try }}{{ range one }}{{ fail() }}{{ end }}{{ catch y }}{{ end }}<{{ . }}>`, "D"},
 	{`{{ try }}{{ include "/failctx.jet" "ctx" }}{{ catch }}<{{ . }}>{{ end }}`, "D"},
@@ -95,7 +97,9 @@ func H_C07_bodies() {
 	b := ndChoice("body", len(c07Bodies))
 	set := hxSet(nil,
 		"/m.jet", `{{ import "/lib.jet" }}{{ z := "Z" }}`+c07Bodies[b][0]+`|{{ isset(y) }}|{{ z }}|{{ . }}`,
-		"/lib.jet", `{{ block lib(y=0) }}<{{ . }}>{{ end }}{{ block wrap() }}{{ yield content }}{{ end }}`,
+		"/lib.jet", `{{ block lib(y=0) }}<{{ . }}>{{ end }}{{ block wrap() }}{{ yield content }}{{ end }}`+
+			`{{ block rangeWrap() }}{{ range one }}{{ yield content "cctx" }}({{ . }}){{ end }}{{ end }}`+
+			`{{ block ctxWrap() }}{{ yield content "cctx" }}({{ . }}){{ end }}`,
 		"/inc.jet", `{{ y := 1 }}<{{ . }}>`,
 		"/failctx.jet", `{{ y := 1 }}{{ fail() }}`,
 	)
@@ -109,6 +113,12 @@ func H_C07_bodies() {
 	inside := "<" + c07Bodies[b][1] + ">"
 	if c07Bodies[b][1] == "" {
 		inside = ""
+	}
+	switch c07Bodies[b][0][:16] {
+	case "{{ yield rangeWr":
+		inside = "(e)<D>" // after 'yield content expr' inside the range, '.' is the range element again
+	case "{{ yield ctxWrap":
+		inside = "(bctx)<D>" // ... and the block's explicit context again
 	}
 	vfNote(out)
 	vfAssert(out == inside+"|false|Z|D", "body-local names end with the body; '.' changes only where documented and is restored")
@@ -256,4 +266,36 @@ func H_C07_paramScope() {
 	}
 	vfNote(out)
 	vfAssert(out == "(DEF)(changed)"+after, "a block parameter is local to the block; outer variables of the same name are neither read nor written")
+}
+
+// H_C07_noResidue: nothing declared during one execution is visible in the next one on
+// the same (pooled) runtime: the first execution declares variables in nested scopes
+// (range, if with declaration, block with parameters) and fails there or succeeds
+// (symbolic); the second reports which of those names resolve.
+//
+//gosym:reach checked
+func H_C07_noResidue() {
+	firsts := []string{
+		`{{ top := "s" }}{{ range k, secret := r }}{{ inner := 1 }}{{ mayFail() }}{{ end }}`,
+		`{{ if secret := "s"; true }}{{ inner := 1 }}{{ mayFail() }}{{ end }}`,
+		`{{ block b(secret="s") }}{{ inner := 1 }}{{ mayFail() }}{{ end }}`,
+		`{{ secret := "s" }}{{ if true }}{{ inner := 1 }}{{ if true }}{{ top := 2 }}{{ mayFail() }}{{ end }}{{ end }}`,
+	}
+	f := ndChoice("first", len(firsts))
+	fails := ndBool("fails")
+	set := hxSet(nil, "/a.jet", firsts[f], "/p.jet", `{{ isset(secret) }}|{{ isset(inner) }}|{{ isset(top) }}|{{ isset(k) }}|{{ isset(fromVarMap) }}`)
+	vars := make(VarMap)
+	vars.Set("r", []string{"x"})
+	vars.Set("fromVarMap", 1)
+	vars.SetFunc("mayFail", func(a Arguments) reflect.Value {
+		if fails {
+			panic(hxErr{"mayFail"})
+		}
+		return valueBoolTRUE
+	})
+	hxExec(set, "/a.jet", vars, nil)
+	out, err := hxExec(set, "/p.jet", nil, nil)
+	vfReach("checked")
+	vfAssert(err == nil, "renders")
+	vfAssert(out == "false|false|false|false|false", "no variable of an earlier execution is visible")
 }
